@@ -106,11 +106,17 @@ def run_check(prop, tier, seed):
           'level': mod.LEVEL, 'coverage': cov,
           'assumptions': rep.notes.get('assumptions', []),
           'wall_s': round(wall, 3), 'violations': rep.n_violations()}
-    os.makedirs(EVIDENCE_DIR, exist_ok=True)
-    tmp = os.path.join(EVIDENCE_DIR, '.%s.json.tmp' % prop)
+    # runs against a scratch copy (mutation demos) must not overwrite the
+    # evidence of /repo
+    evdir = EVIDENCE_DIR
+    if repo.root() != os.path.realpath('/repo'):
+        evdir = os.environ.get('VERIF_SCRATCH_EVIDENCE',
+                               os.path.join(REPLAY_DIR, 'scratch-evidence'))
+    os.makedirs(evdir, exist_ok=True)
+    tmp = os.path.join(evdir, '.%s.json.tmp' % prop)
     with open(tmp, 'w') as f:
         json.dump(ev, f, indent=1, sort_keys=True)
-    os.replace(tmp, os.path.join(EVIDENCE_DIR, '%s.json' % prop))
+    os.replace(tmp, os.path.join(evdir, '%s.json' % prop))
 
     # ---- output contract -----------------------------------------------------
     for key, n in sorted(rep.known_hits.items()):
